@@ -37,6 +37,8 @@ ASSUMPTIONS = [
     "property (str() sorts them); order of values of one key and of "
     "sections is",
 ]
+HOOK_FLOORS = {"quick": {"schema_based_load_with_directives": 2},
+               "thorough": {"schema_based_load_with_directives": 2}}
 FLOORS = {"quick": {"accepted_nontrivial": 500000},
           "thorough": {"accepted_nontrivial": 8000000}}
 BOUND = {"quick": 5, "thorough": 6}
@@ -290,9 +292,20 @@ def targeted_text(rng):
     return "\n".join(lines) + "\n"
 
 
+schema_based_load = c03.schema_based_load
+
+
 def run_shard(ctx):
     os.environ["ZCV_EMPTY"] = ""     # set but empty (see C03)
     os.environ["ZCV_PAD"] = " pad "
+    schema_based_load(ctx, "before")
+    try:
+        _run_shard(ctx)
+    finally:
+        schema_based_load(ctx, "after")
+
+
+def _run_shard(ctx):
     bound = BOUND[ctx.tier]
     for s in c03.enum_lines(ctx, bound, 0):
         check_text(ctx, s, "line")
@@ -324,4 +337,9 @@ def run_shard(ctx):
 def replay(ctx, case):
     os.environ["ZCV_EMPTY"] = ""
     os.environ["ZCV_PAD"] = " pad "
+    schema_based_load(ctx, "before")
+    if case.get("family") == "history":
+        check_text(ctx, "%define a b\nk $a\n", "history")
+        schema_based_load(ctx, "after")
+        return
     check_text(ctx, case["text"], case.get("family", "replay"))
